@@ -192,7 +192,10 @@ def check_gtcount(prog, rep, K):
         good = False
     v = st.value
     okv = (isinstance(v, ast.Call) and isinstance(v.func, ast.Attribute) and v.func.attr == "sum" and isinstance(v.func.value, ast.Compare)
-           and isinstance(v.func.value.ops[0], ast.Eq) and dump(v.func.value.comparators[0]) == i)
+           and isinstance(v.func.value.ops[0], ast.Eq) and i in (dump(v.func.value.comparators[0]), dump(v.func.value.left)))
+    if okv and dump(v.func.value.left) == i:
+        # `i == dosage` and `dosage == i` are the same test: read it with the class index on the right
+        v.func.value.left, v.func.value.comparators = v.func.value.comparators[0], [v.func.value.left]
     if not okv:
         rep.violate("R3-classes", construct, "row %s is %s, not the number of taxa whose dosage equals %s" % (i, dump(v)[:60], i), where(f, st), "(dosage == %s).sum(taxa)" % i, dump(v)[:60])
         good = False
